@@ -66,6 +66,8 @@ def base_cfg(**over) -> dict:
     cfg.update(over)
     if cfg["cond"] is None:
         cfg["cond"] = {s: no_cond() for s in cfg["syms"]}
+    cfg.setdefault("condAlt", {s: dict(c) for s, c in cfg["cond"].items()})     # conditions set_conditions may switch to
+    cfg.setdefault("istep", {s: 1 for s in cfg["syms"]})        # units per step of the SYMBOL's precision (pairs may be finer)
     return cfg
 
 
@@ -150,6 +152,15 @@ MC = {
         req=reqset(["limit", "market"], [1], [2], [2], ab=[True], ar=[False]), bars=barset([2], [4]),
         loans="{[sym |-> \"BTC\", amount |-> 1]}",
         bounds=dict(MaxOrders=2, MaxLoans=3, MaxBars=2, MaxCalls=3), times=[1]),
+    # the conditions of BTC loans change while loans are open (MarginLoans.set_conditions): tighter requirement, other
+    # interest terms for the loans granted from then on
+    "margin_setcond": dict(
+        cfg=base_cfg(init={"BTC": 0, "USD": 4}, lendMode="margin", reqD=2,
+                     cond={"BTC": margin_cond("BTC", 1, 2, 1, 0, 1), "USD": margin_cond("USD", 1, 2, 1, 0, 2)},
+                     condAlt={"BTC": margin_cond("BTC", 1, 1, 1, 1, 4), "USD": margin_cond("USD", 1, 2, 1, 0, 2)}),
+        req=reqset(["market"], [1], [2], [2], ab=[True], ar=[True]), bars=barset([2, 4], [8]),
+        loans="{[sym |-> \"BTC\", amount |-> 1], [sym |-> \"BTC\", amount |-> 2]}",
+        bounds=dict(MaxOrders=1, MaxLoans=2, MaxBars=2, MaxCalls=4), times=[1]),
     # margin lending with finite liquidity: auto-repay orders that fill partially and get cancelled
     "margin_partial": dict(
         cfg=base_cfg(init={"BTC": 0, "USD": 8}, liqMode="share", vlN=1, vlD=2, lendMode="margin", reqD=2,
@@ -174,13 +185,14 @@ MC_FOR = {
     "C07": (["orders", "margin", "margin_fee"], ["fees", "margin_zero"]),
     "C08": (["fees"], ["rounding", "orders"]),
     "C09": (["fees", "rounding"], ["orders"]),
-    "C10": (["margin", "margin_zero"], ["orders"]),
+    "C10": (["margin", "margin_zero", "margin_setcond"], ["orders"]),
     "C11": (["margin", "margin_partial"], ["margin_zero", "margin_fee"]),
 }
 REACH_FOR = {
     "orders": ["Reach_Completed", "Reach_Rejected"],
     "fees": ["Reach_PartialFill", "Reach_FeeCharged", "Reach_FillOrKill"],
     "margin": ["Reach_LoanRepaid", "Reach_AutoRepaid", "Reach_MarginRefused"],
+    "margin_setcond": ["Reach_CondChanged", "Reach_MarginRefused"],
     "margin_fee": ["Reach_Rollback"],
     "stoplimit": ["Reach_StopHit"],
 }
@@ -242,7 +254,7 @@ def magnitude_limit(cfg: dict, steps) -> int:
     """Largest unit count for which every product the spec computes stays inside TLC's 32-bit integers."""
     smax = max(cfg["scale"].values())
     pmax = max([1] + [max(s["arg"]["h"], s["arg"]["o"]) for s in steps if s["kind"] == "bar"])
-    req = max([1] + [c["reqN"] for c in cfg["cond"].values()]) * max(1, cfg["reqD"])
+    req = max([1] + [c["reqN"] for c in list(cfg["cond"].values()) + list(cfg.get("condAlt", {}).values())]) * max(1, cfg["reqD"])
     ld = max(1, cfg["vlD"] * cfg["vs"])
     return max(1000, (2**31 - 1) // (pmax * smax * cfg["pm"] * req * len(cfg["syms"]) * 2 * ld))
 
@@ -251,6 +263,8 @@ def slim(tr: dict, tid: int) -> dict:
     """What ExchangeTrace.tla reads (no nulls, no floats).  A trace is cut before the first step whose amounts would overflow
     TLC's integers (counted in the evidence as truncated)."""
     steps = []
+    tr["cfg"].setdefault("condAlt", tr["cfg"]["cond"])
+    tr["cfg"].setdefault("istep", {s: 1 for s in tr["cfg"]["syms"]})
     limit = magnitude_limit(tr["cfg"], tr["steps"])
     for s in tr["steps"]:
         o = s["obs"]
@@ -404,6 +418,25 @@ def random_cfg(rng: random.Random, profile: str) -> dict:
                 cfg["cond"][s] = margin_cond(rng.choice([s, "USD"]), *rng.choice([(0, 1), (1, 100), (1, 10), (7, 100)]),
                                              period=rng.choice([1, 2, 4, 8]),
                                              minInt=rng.choice([0, 0, 1, 5]), reqN=rng.choice([1, 2, 4, 8]))
+    cfg["condAlt"] = {s: dict(c) for s, c in cfg["cond"].items()}
+    cfg["istep"] = {s: 1 for s in syms}
+    if lend == "margin" and not cfg.get("borrowOnly") and rng.random() < 0.3:
+        # the precision configured for a symbol is coarser than the precision of the pairs it trades in (set_pair_info):
+        # interest is truncated to the symbol's precision, amounts and loans are not
+        for s in syms:
+            if cfg["scale"][s] >= 10 and rng.random() < 0.7:
+                cfg["istep"][s] = 10
+    if lend == "margin" and rng.random() < 0.35:
+        # the strategy changes the lending conditions of some symbols while the backtest runs (tighter or looser
+        # requirement, other interest rate / minimum); the interest symbol and period stay
+        for s in syms:
+            c = cfg["cond"][s]
+            if c["has"] and rng.random() < 0.7 and not (s == "EUR" and cfg.get("borrowOnly")):
+                alt = dict(c, reqN=rng.choice([x for x in (1, 2, 4, 8) if x != c["reqN"]]))
+                if rng.random() < 0.5 and not (s == "ARS" and cfg.get("inverse")):
+                    alt["pctN"], alt["pctD"] = rng.choice([(0, 1), (1, 100), (1, 10), (7, 100)])
+                    alt["minInt"] = rng.choice([0, 1, 5])
+                cfg["condAlt"][s] = alt
     return cfg
 
 
@@ -456,9 +489,14 @@ class Driver:
         weights = {"create_order": 6, "cancel_order": 2, "get_open_orders": 1}
         if cfg["lendMode"] == "margin" or rng.random() < 0.1:
             weights.update({"create_loan": 3, "repay_loan": 2})
+        switchable = [s for s in cfg["syms"] if cfg.get("condAlt", cfg["cond"])[s] != cfg["cond"][s]]
+        if switchable and cfg["lendMode"] == "margin":
+            weights["set_cond"] = 1
         kind = rng.choices(list(weights), list(weights.values()))[0]
         if kind == "get_open_orders":
             return [{"kind": kind, "arg": 1 + len(cfg["pairs"])}]
+        if kind == "set_cond":
+            return [{"kind": kind, "arg": {"sym": rng.choice(switchable), "which": rng.choice(["alt", "alt", "base"])}}]
         if kind == "cancel_order":
             n = len(obs["orders"])
             open_idx = [i + 1 for i, o in enumerate(obs["orders"]) if o["state"] == "open"]
@@ -567,6 +605,21 @@ def corpus() -> List[dict]:
         {"kind": "bar", "arg": dict(p=1, t=2, o=10, h=10, l=10, c=10, v=4)},
         {"kind": "cancel_order", "arg": 1},
         {"kind": "bar", "arg": dict(p=1, t=3, o=10, h=10, l=10, c=10, v=4)}]})
+    # ... and when the proceeds cover a loan's principal but not principal + (minimum) interest, the cancellation succeeds
+    # and the loan simply stays open (the failed repayment is not the caller's error)
+    for min_int, vol in ((5, 41), (1, 40), (30, 43)):
+        cfg = base_cfg(init={"BTC": 12, "USD": 0}, liqMode="share", vlN=1, vlD=4, vs=1, lendMode="margin", reqD=4,
+                       cond={"BTC": no_cond(), "USD": margin_cond("USD", 0, 1, 1, min_int, 1)})
+        out.append({"cfg": cfg, "steps": [
+            {"kind": "bar", "arg": dict(p=1, t=1, o=10, h=10, l=10, c=10, v=1000)},
+            {"kind": "create_loan", "arg": {"sym": "USD", "amount": 100}},
+            {"kind": "create_order", "arg": _req(type="market", op="buy", amount=10)},
+            {"kind": "bar", "arg": dict(p=1, t=2, o=10, h=10, l=10, c=10, v=1000)},
+            {"kind": "create_order", "arg": _req(type="limit", op="sell", amount=20, limit=10, ar=True)},
+            {"kind": "bar", "arg": dict(p=1, t=3, o=10, h=10, l=10, c=10, v=vol)},
+            {"kind": "cancel_order", "arg": 2},
+            {"kind": "get_open_orders", "arg": 2},
+            {"kind": "bar", "arg": dict(p=1, t=4, o=10, h=10, l=10, c=10, v=vol)}]})
     # KF-1 (known finding, C04): a fill whose quote amount rounds to zero is ignored -- kept so that every run reports it
     cfg = base_cfg(scale={"BTC": 100, "USD": 100}, init={"BTC": 0, "USD": 1000})
     out.append({"cfg": cfg, "steps": [
@@ -681,6 +734,10 @@ def judge(rep: Report, prop: str, traces, slimmed, verdicts, n_replay: int):
         else:
             rep.traces += 1
         rep.steps += v["judged"]
+        hist = rep.extra.setdefault("judged_steps_by_kind_and_outcome", {})      # vacuity guard: what the traces exercised
+        for s in tr["steps"][:v["judged"]]:
+            key = s["kind"] + ("" if s["ok"] else "/" + str(s["err"]))
+            hist[key] = hist.get(key, 0) + 1
         sig = sig_of(tr)
         last_obs = tr["steps"][-1]["obs"] if tr["steps"] else {"orders": [], "loans": []}
         nontrivial = (any(not s["ok"] for s in tr["steps"]) or any(o["filled"] > 0 for o in last_obs["orders"])
